@@ -169,7 +169,10 @@ Proof.
     destruct d as [s x|od dp dm|od dm df].
     + destruct v1 as [s1 x1| |]; try discriminate. inv H. split; [|exact Eo]. apply Hplain. now apply incl_appl.
     + destruct v1 as [s1 x1|ov vp vm|]; try discriminate. { destruct s1; discriminate. }
-      destruct (m_lock dm); [discriminate|]. inv H. split; [|exact Eo]. apply Hplain. now apply incl_appl.
+      assert (Hr : r' = mkAcc A (r_obj A r1) (r_meta A r1) (fset A (r_f A r1) k (NonT od vp dm))).
+      { destruct (match ov, od with New, _ => true | Old b, Old a => Z.eqb a b | _, _ => false end); [now inv H|].
+        destruct (m_lock dm); [discriminate|now inv H]. }
+      subst r'. split; [|exact Eo]. apply Hplain. now apply incl_appl.
     + destruct v1 as [| |ov vm vf]; try discriminate.
       destruct od as [a|]; [|discriminate]. destruct ov as [b|]; [|discriminate].
       destruct (Z.eqb a b); [|discriminate]. inv H. split; [|exact Eo]. now apply Hplain.
@@ -234,7 +237,7 @@ Proof.
             apply olds_fget in Hok. eapply incl_tran; [exact Hok|].
             eapply incl_tran; [|exact (HoL _ eq_refl)]. rewrite olds_t_node. now apply incl_appr, incl_refl. }
         destruct item as [s x|io d im|io im g]; [discriminate| |].
-        + inv Htr. unfold nont_apply. destruct out_k as [X|]; [now apply Hokl|]. intros x [].
+        + inv Htr. unfold nont_apply. intros x [].
         + apply bind_ok in Htr. destruct Htr as (init & Hinit & Htr).
           apply bind_ok in Htr. destruct Htr as ([resn anyn] & Hnest & Htr). cbn [fst snd] in Htr. inv Htr.
           destruct (level_init_olds io im g out_k init L Hi Hokl Hinit) as (Hin1 & _).
@@ -387,7 +390,10 @@ Proof.
   - destruct v1 as [s1 x1| |]; try discriminate. inv H. cbn [r_f]. rewrite <- Ef.
     apply (shape_fset_same _ k d1); [exact Hd1|]. rewrite Ed1. reflexivity.
   - destruct v1 as [s1 x1|ov vp vm|]; try discriminate. { destruct s1; discriminate. }
-    destruct (m_lock dm); [discriminate|]. inv H. cbn [r_f]. rewrite <- Ef.
+    assert (Hr : r' = mkAcc A (r_obj A r1) (r_meta A r1) (fset A (r_f A r1) k (NonT od vp dm))).
+    { destruct (match ov, od with New, _ => true | Old b, Old a => Z.eqb a b | _, _ => false end); [now inv H|].
+      destruct (m_lock dm); [discriminate|now inv H]. }
+    subst r'. cbn [r_f]. rewrite <- Ef.
     apply (shape_fset_same _ k d1); [exact Hd1|]. rewrite Ed1. reflexivity.
   - destruct v1 as [| |ov vm vf]; try discriminate.
     destruct od as [a|]; [|discriminate]. destruct ov as [b|]; [|discriminate].
@@ -523,7 +529,8 @@ Proof.
     - destruct d as [s x|od dp dm|od dm df]; destruct v1 as [s1 x1|ov vp vm|ov vm vf]; try discriminate.
       + now inv H.
       + destruct s1; discriminate.
-      + destruct (m_lock dm); [discriminate|]. now inv H.
+      + destruct (match ov, od with New, _ => true | Old b, Old a => Z.eqb a b | _, _ => false end); [now inv H|].
+        destruct (m_lock dm); [discriminate|]. now inv H.
       + destruct od; [|discriminate]. destruct ov; [|discriminate]. destruct (Z.eqb z z0); [|discriminate]. now inv H.
     - destruct (m_lock (r_meta A r1)); [discriminate|]. now inv H. }
   rewrite Hfin. exact Hm.
